@@ -172,6 +172,11 @@ theorem serverDestroy_noState (w : World) (s : Nat) :
     · exact h0
     · exact (portDestroy_hk _ (sid s)).1.noState f t hf j v h0
 
+theorem getSnd_updActive (w : World) (s a : Nat) (f : Active → Active) (p : Pid) : getSnd (updActive w s a f) p = getSnd w p := by
+  unfold updActive; split <;> rfl
+theorem getSnd_reapActive (w : World) (s a : Nat) (p : Pid) : getSnd (reapActive w s a) p = getSnd w p := by
+  unfold reapActive; split <;> rfl
+
 /-- (d) dropping an active request closes its response channel on the connection its slot leads to -/
 theorem opDActive_closes (w : World) (s a : Nat) (V : Server) (A : Active) (hV : getSv w s = some V)
     (hA : findActive V a = some A) (t : Pid) (ht : respondTarget w s A.connId = some t)
@@ -182,12 +187,12 @@ theorem opDActive_closes (w : World) (s a : Nat) (V : Server) (A : Active) (hV :
   simp only [hA] at hc
   refine serverDestroy_noState _ s (sid s) t rfl _ _ ?_ c' x' hc hx
   intro c0 x hc0 hx0
-  -- the response slot is the same after the record update and the release of the request chunk
-  have ht' : respondTarget (rcvRelease (setSv w s { V with actives := V.actives.filter (·.label ≠ a) }) (sid s) A.det) s A.connId
+  -- the response slot is the same after the record updates and the release of the request chunk
+  have ht' : respondTarget (rcvRelease (reapActive (updActive w s a fun x => { x with live := false }) s a) (sid s) A.det) s A.connId
       = some t := by
     unfold respondTarget sndConns at ht ⊢
-    rw [(rcvRelease_hk _ _ _).getSnd_eq]
-    simpa using ht
+    rw [(rcvRelease_hk _ _ _).getSnd_eq, getSnd_reapActive, getSnd_updActive]
+    exact ht
   unfold activeFinish at hc0
   rw [ht'] at hc0
   obtain ⟨c1, x1, _, _, hx1e⟩ := mapChanAt_chan _ _ _ _ _ _ _ c0 _ x hc0 hx0
@@ -220,6 +225,66 @@ end Iox2.ReqRes
 
 namespace Iox2.ReqRes
 
+/-- every client of `w'` is a client of `w` with the same pending responses, counter and limit -/
+def SamePend (w w' : World) : Prop :=
+  ∀ c' C', getCl w' c' = some C' → ∃ C0, getCl w c' = some C0 ∧ C'.pendings = C0.pendings ∧ C'.activeCnt = C0.activeCnt ∧
+    C'.maxActive = C0.maxActive
+
+theorem SamePend.of_eq {w w' : World} (h : ∀ c', getCl w' c' = getCl w c') : SamePend w w' :=
+  fun c' C' hC' => ⟨C', by rw [← h]; exact hC', rfl, rfl, rfl⟩
+
+/-- `Client::loan_chunk` sends nothing: queues only shrink (returned chunks are collected), pending responses
+and counters stay; a refusal is one of the documented ones -/
+theorem clientLoan_frame (w : World) (c l : Nat) :
+    ConnsLe w (clientLoan w c l).1 ∧ SamePend w (clientLoan w c l).1 ∧
+    ((clientLoan w c l).2.1 = none → (clientLoan w c l).2.2 = "none" ∨ (clientLoan w c l).2.2 = "PANIC" ∨
+      (clientLoan w c l).2.2 = "err:loan:ExceedsMaxLoans" ∨ (clientLoan w c l).2.2 = "err:loan:OutOfMemory") := by
+  unfold clientLoan
+  split
+  · exact ⟨ConnsLe.refl _, SamePend.of_eq (fun _ => rfl), fun _ => Or.inl rfl⟩
+  · next C hC =>
+    split
+    · exact ⟨ConnsLe.refl _, SamePend.of_eq (fun _ => rfl), fun _ => Or.inr (Or.inr (Or.inl rfl))⟩
+    · simp only []
+      have k1 := (retrieveReturned_hk w (cid c)).1
+      generalize retrieveReturned w (cid c) = w1 at k1
+      split
+      · exact ⟨k1.conns, SamePend.of_eq k1.getCl_eq, fun _ => Or.inl rfl⟩
+      · next S hS1 =>
+        split
+        · exact ⟨k1.conns, SamePend.of_eq k1.getCl_eq, fun _ => Or.inr (Or.inr (Or.inl rfl))⟩
+        · exact ⟨k1.conns, SamePend.of_eq k1.getCl_eq, fun _ => Or.inr (Or.inr (Or.inr rfl))⟩
+        · exact ⟨k1.conns.trans (ConnsLe.of_eq fun _ _ => rfl), SamePend.of_eq k1.getCl_eq, fun _ => Or.inr (Or.inl rfl)⟩
+        · next S' chunk _ =>
+          split
+          · exact ⟨k1.conns.trans (ConnsLe.of_eq fun _ _ => rfl), SamePend.of_eq (fun c' => k1.getCl_eq c'),
+              fun _ => Or.inr (Or.inl rfl)⟩
+          · refine ⟨k1.conns.trans (ConnsLe.of_eq fun _ _ => rfl), ?_, fun h => by simp at h⟩
+            intro c' C' hC'
+            simp only [getCl_setSnd, getCl_setCl] at hC'
+            split at hC'
+            · next hcc => cases hC'; subst hcc; exact ⟨C, hC, rfl, rfl, rfl⟩
+            · rw [k1.getCl_eq] at hC'; exact ⟨C', hC', rfl, rfl, rfl⟩
+
+theorem clientReleaseLoan_frame (w : World) (c : Nat) (q : QLoan) :
+    ConnsLe w (clientReleaseLoan w c q) ∧ SamePend w (clientReleaseLoan w c q) := by
+  unfold clientReleaseLoan
+  split
+  · exact ⟨ConnsLe.refl _, SamePend.of_eq (fun _ => rfl)⟩
+  · next C hC =>
+    have hconn : ∀ w' : World, ∀ p ch, ConnsLe w' (sndReturnLoan w' p ch) ∧ ∀ c', getCl (sndReturnLoan w' p ch) c' = getCl w' c' := by
+      intro w' p ch
+      unfold sndReturnLoan
+      split
+      · exact ⟨ConnsLe.of_eq fun _ _ => rfl, fun _ => rfl⟩
+      · exact ⟨ConnsLe.refl _, fun _ => rfl⟩
+    refine ⟨(ConnsLe.of_eq fun _ _ => rfl).trans (hconn _ _ _).1, ?_⟩
+    intro c' C' hC'
+    rw [(hconn _ _ _).2, getCl_setCl] at hC'
+    split at hC'
+    · next hcc => cases hC'; subst hcc; exact ⟨C, hC, rfl, rfl, rfl⟩
+    · exact ⟨C', hC', rfl, rfl, rfl⟩
+
 /-- (e) a `send` beyond the active-request limit: whatever it answers, no request is sent and no
 pending response comes into being - the queues of all connections only shrink (returned chunks are
 collected), every client keeps its pending responses and its counter -/
@@ -231,35 +296,43 @@ theorem opSend_at_limit (w : World) (c r tag : Nat) (C : Client) (hC : getCl w c
     ((opSend w c r tag).2 = "none" ∨ (opSend w c r tag).2 = "dup" ∨ (opSend w c r tag).2 = "PANIC" ∨
      (opSend w c r tag).2 = "err:loan:ExceedsMaxLoans" ∨ (opSend w c r tag).2 = "err:loan:OutOfMemory" ∨
      (opSend w c r tag).2 = "err:send:ExceedsMaxActiveRequests") := by
-  have hsame : ∀ (w' : World), (∀ c', getCl w' c' = getCl w c') →
-      ∀ c' C', getCl w' c' = some C' → ∃ C0, getCl w c' = some C0 ∧ C'.pendings = C0.pendings ∧ C'.activeCnt = C0.activeCnt :=
-    fun w' h c' C' hC' => ⟨C', by rw [← h]; exact hC', rfl, rfl⟩
+  have weaken : ∀ {w' : World}, SamePend w w' → ∀ c' C', getCl w' c' = some C' → ∃ C0, getCl w c' = some C0 ∧
+      C'.pendings = C0.pendings ∧ C'.activeCnt = C0.activeCnt :=
+    fun h c' C' hC' => let ⟨C0, h0, h1, h2, _⟩ := h c' C' hC'; ⟨C0, h0, h1, h2⟩
   unfold opSend
   rw [hC]
   simp only []
   split
-  · exact ⟨ConnsLe.refl _, hsame w (fun _ => rfl), Or.inl rfl⟩
+  · exact ⟨ConnsLe.refl _, weaken (SamePend.of_eq fun _ => rfl), Or.inl rfl⟩
   · split
-    · exact ⟨ConnsLe.refl _, hsame w (fun _ => rfl), Or.inr (Or.inl rfl)⟩
-    · have k1 := (retrieveReturned_hk w (cid c)).1
-      generalize retrieveReturned w (cid c) = w1 at k1
+    · exact ⟨ConnsLe.refl _, weaken (SamePend.of_eq fun _ => rfl), Or.inr (Or.inl rfl)⟩
+    · obtain ⟨f1, f2, f3⟩ := clientLoan_frame w c 0
       split
-      · exact ⟨k1.conns, hsame w1 k1.getCl_eq, Or.inl rfl⟩
-      · next S hS1 =>
+      · next w1 out heq =>
+        rw [heq] at f1 f2 f3
+        refine ⟨f1, weaken f2, ?_⟩
+        rcases f3 rfl with h | h | h | h
+        · exact Or.inl h
+        · exact Or.inr (Or.inr (Or.inl h))
+        · exact Or.inr (Or.inr (Or.inr (Or.inl h)))
+        · exact Or.inr (Or.inr (Or.inr (Or.inr (Or.inl h))))
+      · next w1 q _ heq =>
+        rw [heq] at f1 f2
+        have f1 : ConnsLe w w1 := f1
+        have f2 : SamePend w w1 := f2
+        unfold clientSendLoan
         split
-        · exact ⟨k1.conns, hsame w1 k1.getCl_eq, Or.inr (Or.inr (Or.inr (Or.inl rfl)))⟩
-        · exact ⟨k1.conns, hsame w1 k1.getCl_eq, Or.inr (Or.inr (Or.inr (Or.inr (Or.inl rfl))))⟩
-        · exact ⟨k1.conns.trans (ConnsLe.of_eq fun _ _ => rfl), hsame _ k1.getCl_eq, Or.inr (Or.inr (Or.inl rfl))⟩
-        · next S' chunk _ =>
-          split
-          · exact ⟨k1.conns.trans (ConnsLe.of_eq fun _ _ => rfl), hsame _ (fun c' => k1.getCl_eq c'),
-              Or.inr (Or.inr (Or.inl rfl))⟩
-          · refine ⟨k1.conns.trans (ConnsLe.of_eq fun _ _ => rfl), ?_, Or.inr (Or.inr (Or.inr (Or.inr (Or.inr rfl))))⟩
-            intro c' C' hC'
-            simp only [getCl_setSnd, getCl_setCl] at hC'
-            split at hC'
-            · next hcc => cases hC'; subst hcc; exact ⟨C, hC, rfl, rfl⟩
-            · rw [k1.getCl_eq] at hC'; exact ⟨C', hC', rfl, rfl⟩
+        · exact ⟨f1, weaken f2, Or.inl rfl⟩
+        · next C1 hC1 =>
+          obtain ⟨C0, h0, _, h2, h3⟩ := f2 c C1 hC1
+          rw [hC] at h0; cases h0
+          rw [if_pos (by rw [h2, h3]; exact hlim)]
+          obtain ⟨g1, g2⟩ := clientReleaseLoan_frame w1 c q
+          refine ⟨f1.trans g1, ?_, Or.inr (Or.inr (Or.inr (Or.inr (Or.inr rfl))))⟩
+          intro c' C' hC'
+          obtain ⟨Ca, ha, ha1, ha2, _⟩ := g2 c' C' hC'
+          obtain ⟨Cb, hb, hb1, hb2, _⟩ := f2 c' Ca ha
+          exact ⟨Cb, hb, ha1.trans hb1, ha2.trans hb2⟩
 
 end Iox2.ReqRes
 
@@ -323,6 +396,33 @@ theorem map_loans_roundtrip (l : List Active) (a : Nat) :
   · subst h; cases x; simp
   · simp [h]
 
+/-- (repaired code, 1fb407e) `ActiveRequest::loan_chunk` that fails - `ExceedsMaxLoans` or `OutOfMemory` - leaves
+the active requests of the server, in particular every loan counter, exactly as they were -/
+theorem activeLoan_failed (w : World) (s a lpr : Nat) (A : Active) (V : Server) (hV : getSv w s = some V)
+    (hout : (activeLoan w s a lpr A).2.2 = "err:loan:OutOfMemory" ∨ (activeLoan w s a lpr A).2.2 = "err:loan:ExceedsMaxLoans") :
+    ∃ V', getSv (activeLoan w s a lpr A).1 s = some V' ∧ V'.actives = V.actives := by
+  unfold activeLoan at hout ⊢
+  split at hout
+  · next hlim => rw [if_pos hlim]; exact ⟨V, hV, rfl⟩
+  · next hlim =>
+    rw [if_neg hlim]
+    simp only [] at hout ⊢
+    obtain ⟨V1, hV1, hact1⟩ := getSv_updActive_actives w s a (fun x => { x with loans := x.loans + 1 }) V hV
+    have k2 := (retrieveReturned_hk (updActive w s a fun x => { x with loans := x.loans + 1 }) (sid s)).1
+    have hV2 : getSv (retrieveReturned (updActive w s a fun x => { x with loans := x.loans + 1 }) (sid s)) s = some V1 := by
+      rw [k2.getSv_eq]; exact hV1
+    generalize retrieveReturned (updActive w s a fun x => { x with loans := x.loans + 1 }) (sid s) = w2 at hout hV2 ⊢
+    have hback : ∃ V', getSv (updActive w2 s a fun x => { x with loans := x.loans - 1 }) s = some V' ∧ V'.actives = V.actives := by
+      obtain ⟨V3, hV3, hact3⟩ := getSv_updActive_actives w2 s a (fun x => { x with loans := x.loans - 1 }) V1 hV2
+      exact ⟨V3, hV3, by rw [hact3, hact1]; exact map_loans_roundtrip _ _⟩
+    split at hout
+    · rcases hout with h | h <;> simp at h
+    · split at hout
+      · exact hback
+      · exact hback
+      · rcases hout with h | h <;> simp at h
+      · rcases hout with h | h <;> simp at h
+
 /-- (repaired code, 1fb407e) a loan of a response that fails - `ExceedsMaxLoans` or `OutOfMemory` - leaves
 the active requests of the server, in particular every loan counter, exactly as they were -/
 theorem opRespond_failed_loan (w : World) (s a tag : Nat) (V : Server) (hV : getSv w s = some V)
@@ -334,24 +434,36 @@ theorem opRespond_failed_loan (w : World) (s a tag : Nat) (V : Server) (hV : get
   split at hout
   · rcases hout with h | h <;> simp at h
   · next A hfind =>
+    have hf := activeLoan_failed w s a V.loanPerReq A V hV
     split at hout
-    · next hlim => rw [if_pos hlim]; exact ⟨V, hV, rfl⟩
-    · next hlim =>
-      rw [if_neg hlim]
-      obtain ⟨V1, hV1, hact1⟩ := getSv_updActive_actives w s a (fun x => { x with loans := x.loans + 1 }) V hV
-      have k2 := (retrieveReturned_hk (updActive w s a fun x => { x with loans := x.loans + 1 }) (sid s)).1
-      have hV2 : getSv (retrieveReturned (updActive w s a fun x => { x with loans := x.loans + 1 }) (sid s)) s = some V1 := by
-        rw [k2.getSv_eq]; exact hV1
-      generalize retrieveReturned (updActive w s a fun x => { x with loans := x.loans + 1 }) (sid s) = w2 at hout hV2 ⊢
-      have hback : ∃ V', getSv (updActive w2 s a fun x => { x with loans := x.loans - 1 }) s = some V' ∧ V'.actives = V.actives := by
-        obtain ⟨V3, hV3, hact3⟩ := getSv_updActive_actives w2 s a (fun x => { x with loans := x.loans - 1 }) V1 hV2
-        exact ⟨V3, hV3, by rw [hact3, hact1]; exact map_loans_roundtrip _ _⟩
+    · next w1 out heq =>
+      rw [heq] at hf
+      simp only [heq]
+      exact hf hout
+    · next w1 chunk _ heq =>
+      rcases sendResponse_out w1 s A chunk tag with h0 | h0 <;> (rw [h0] at hout; rcases hout with h | h <;> simp at h)
+
+/-- the same for a response that is loaned to be sent later (`rloan`) -/
+theorem opRLoan_failed_loan (w : World) (s a l : Nat) (V : Server) (hV : getSv w s = some V)
+    (hout : (opRLoan w s a l).2 = "err:loan:OutOfMemory" ∨ (opRLoan w s a l).2 = "err:loan:ExceedsMaxLoans") :
+    ∃ V', getSv (opRLoan w s a l).1 s = some V' ∧ V'.actives = V.actives := by
+  unfold opRLoan at hout ⊢
+  rw [hV] at hout ⊢
+  simp only [] at hout ⊢
+  split at hout
+  · rcases hout with h | h <;> simp at h
+  · next A hfind =>
+    split at hout
+    · rcases hout with h | h <;> simp at h
+    · next hdup =>
+      rw [if_neg hdup]
+      have hf := activeLoan_failed w s a V.loanPerReq A V hV
       split at hout
-      · rcases hout with h | h <;> simp at h
-      · split at hout
-        · exact hback
-        · exact hback
-        · rcases hout with h | h <;> simp at h
-        · rcases sendResponse_out _ s A _ tag with h0 | h0 <;> (rw [h0] at hout; rcases hout with h | h <;> simp at h)
+      · next w1 out heq =>
+        rw [heq] at hf
+        simp only [heq]
+        exact hf hout
+      · next w1 chunk _ heq =>
+        split at hout <;> (rcases hout with h | h <;> simp at h)
 
 end Iox2.ReqRes
